@@ -26,7 +26,7 @@ m={
  "version":1,
  "setup_cmd":"cd /verif/hivecheck && GOFLAGS=-mod=mod GOPROXY=off GOSUMDB=off GOTOOLCHAIN=local GOWORK=off go build -o /verif/.bin/hivecheck .",
  "hooks":{"guard":"verif","enable":"go build/test -tags verif (only the dynamic demonstrations under findings/ use the hooks; the static checks analyse the default build and, in the thorough tier, -tags verif)","baseline_off_cmd":"cd /repo && for m in $(find . -name go.mod | sort | xargs -n1 dirname); do (cd $m && GOFLAGS=-mod=mod GOPROXY=off go test -vet=off -count=1 -timeout 25m ./...) || exit 1; done","source_commits":["56b68c4"],"add_only":True},
- "engines":[{"name":"hivecheck","path":"/verif/hivecheck","serves_properties":[c['property_id'] for c in checks],"kind_free_text":"repo-specific static analyser (go/packages + go/types + go/cfg lockset/path rules + go/ssa value-flow rules) over the current /repo tree; never executes hive.go code"}],
+ "engines":[{"name":"hivecheck","path":"/verif/hivecheck","serves_properties":[c['property_id'] for c in checks],"kind_free_text":"repo-specific static analyser (go/packages + go/types + go/cfg lockset, path, dominance and typestate rules) over the current /repo tree; never executes hive.go code"}],
  "checks":checks,
  "not_applicable":na,
  "notes":claims.get('notes',''),
